@@ -29,7 +29,8 @@ fn err_matches(e: &ParseError, r: &RefErr) -> bool {
         ParseErrorOrigin::BlockHash1 => EOrigin::BlockHash1,
         ParseErrorOrigin::BlockHash2 => EOrigin::BlockHash2,
     };
-    k == r.0 && o == r.1 && e.offset() == r.2
+    let kind_ok = k == r.0 || (r.0 == EKind::BadCharOrTooLong && (k == EKind::BadChar || k == EKind::TooLong));
+    kind_ok && o == r.1 && e.offset() == r.2
 }
 
 fn show_err(e: &ParseError) -> String {
@@ -74,8 +75,9 @@ fn c04_plain<T: Plain>(ctx: &mut Ctx, text: &[u8]) -> R {
     };
     ctx.check("parse-vs-grammar", ok, || {
         format!(
-            "{}\nreal code: from_bytes_with_last_index = {}, index {}\noracle (grammar): {} (index untouched on failure)",
-            input(), show_plain(&got), if idx == SENTINEL { "untouched".to_string() } else { idx.to_string() }, show_want(&want)
+            "{}\nreal code: from_bytes_with_last_index = {}, index {}\noracle (grammar{}): {} (index untouched on failure)",
+            input(), show_plain(&got), if idx == SENTINEL { "untouched".to_string() } else { idx.to_string() },
+            if oracle::STRICT { ", strict parser: capacity counted on the raw text" } else { "" }, show_want(&want)
         )
     })?;
     let got2 = ctx.nopanic("parse-never-panics", || T::parse(text), input)?;
@@ -122,7 +124,7 @@ fn c04_dual<D: Dual>(ctx: &mut Ctx, text: &[u8]) -> R {
     })
 }
 
-fn c04_all(ctx: &mut Ctx, text: &[u8]) -> R {
+pub fn c04_all(ctx: &mut Ctx, text: &[u8]) -> R {
     ctx.input();
     c04_plain::<FuzzyHash>(ctx, text)?;
     c04_plain::<RawFuzzyHash>(ctx, text)?;
@@ -760,7 +762,7 @@ pub fn c15(ctx: &mut Ctx) -> R {
 /// Three models that are often close in the order: equal, prefix, trailing 'A's (symbol 0).
 fn near_models(ctx: &mut Ctx, cap2: usize, norm: bool) -> [Model; 3] {
     let base = if norm { gen::model_norm(&mut ctx.rng, cap2) } else { gen::model_raw(&mut ctx.rng, cap2) };
-    let mut vary = |ctx: &mut Ctx, m: &Model| -> Model {
+    let vary = |ctx: &mut Ctx, m: &Model| -> Model {
         let mut x = m.clone();
         let fix = |v: Vec<u8>, cap: usize| {
             let mut v = if norm { collapse(&v) } else { v };
